@@ -34,6 +34,7 @@ ORACLE = {
     'C10': ['contract', 'res', 'tree'],
     'C12': ['clean_tree', 'clean_res', 'foreign'],
     'C13': ['res', 'tree', 'unjustified'],
+    'C14': ['res', 'tree', 'rollback', 'tmp_leak', 'contract'],
     'C15': ['refused_effect', 'tmp_leak'],
     'C16': ['res', 'unjustified'],
     'TIE': [],
@@ -51,6 +52,7 @@ TIE = {
     'C10': ['impl_res', 'impl_tree'],
     'C12': ['impl_tree'],
     'C13': ['impl_inv', 'impl_res'],
+    'C14': ['impl_res', 'impl_tree'],
     'C15': ['impl_res', 'impl_tree'],
     'C16': ['impl_cache', 'impl_res'],
     'TIE': ['impl_res', 'impl_tree', 'impl_inv', 'impl_cache'],
@@ -94,7 +96,36 @@ def shrink_case(case, pred, max_rounds=150):
     return cur
 
 
+def fault_step_of(case):
+    for i, st in enumerate(case['steps']):
+        if st[0] == 'build' and len(st) > 5 and isinstance(st[5], dict) and 'inject' in st[5]:
+            return i
+    return None
+
+
+def run_with_fault_plan(case):
+    """C14: real run first (where does the k-th call fall?), then the model with the derived plan"""
+    b = fault_step_of(case)
+    case['steps'][b][5] = {'inject': case['steps'][b][5]['inject']}
+    r = hist.real_worker(case)
+    if 'harness_error' in r:
+        raise core.HarnessError(r['harness_error'])
+    f = r['steps'][b].get('fault', {}).get('fired')
+    if f is None:
+        return None
+    case['steps'][b][5].update(fault_plan(f))
+    s, = model.run_cases([case])
+    return case, r, s
+
+
 def discrepancies(case, cats):
+    if fault_step_of(case) is not None:
+        out = run_with_fault_plan(case)
+        if out is None:
+            return []
+        c, r, s = out
+        ds, _ = hist.analyze(c, r, s)
+        return [d for d in ds if d['cat'] in cats]
     (c, r, s), = hist.run_batch([case], procs=1)
     ds, _ = hist.analyze(c, r, s)
     return [d for d in ds if d['cat'] in cats]
@@ -119,10 +150,10 @@ def nontrivial_key(c, st):
     return None
 
 
-def explore(prop, tier, rep, cases):
+def explore(prop, tier, rep, cases, precomputed=None):
     """gates 2 and 3 on a list of history cases"""
     oracle_cats, tie_cats = ORACLE[prop], TIE[prop]
-    results = hist.run_batch(cases)
+    results = precomputed if precomputed is not None else hist.run_batch(cases)
     agg = {}
     n_oracle = n_tie = 0
     first_tie = None
@@ -502,10 +533,75 @@ def check_C17(tier):
     return finish('C17', rep, gate)
 
 
+def fault_plan(fired):
+    ic = fired['in_call']
+    if ic[0] == 'bf':
+        return {'files': [ic[1]]}
+    if ic[0] == 'sb' and ic[2] is not None:
+        return {'subs': [[ic[1], ic[2], ic[3]]]}
+    return {'abort': 'end' if fired.get('root_returned') else 'start'}
+
+
+def c14_jobs(tier, ds):
+    """cases with one injected OSError at the k-th mutating library call of one committed build"""
+    base = gen.gen_scenario_cases(core.seed() * 31 + 14, budget(tier, 12, 300), ds)
+    base += random_cases(tier, 150, 6000, 14, dirsize=ds, p_fail=0.0, p_clean=0.0, min_builds=2, max_builds=4)
+    probe = []
+    for c in base:
+        c = json.loads(json.dumps(c))
+        for st in c['steps']:
+            if st[0] == 'build':
+                st.append({'count_faults': True})
+        probe.append(c)
+    dry = core.pmap(hist.real_worker, probe)
+    rng = random.Random(core.seed() * 101 + 14)
+    jobs = []
+    for c, r in zip(base, dry):
+        if 'harness_error' in r:
+            raise core.HarnessError(r['harness_error'])
+        for b, (st, ro) in enumerate(zip(c['steps'], r['steps'])):
+            if st[0] != 'build' or 'ok' not in ro['res'] or not ro.get('fault'):
+                continue
+            n = ro['fault']['injectable_calls']
+            ks = list(range(1, n + 1))
+            if tier == 'quick' and len(ks) > 2:
+                ks = rng.sample(ks, 2)
+            for k in ks:
+                j = json.loads(json.dumps(c))
+                j['steps'] = j['steps'][:b + 3]
+                j['steps'][b] = j['steps'][b][:5] + [{'inject': k}]
+                j['seed'] = '%s@step%d,k%d' % (c.get('seed'), b, k)
+                j['fault_step'] = b
+                jobs.append(j)
+    return jobs
+
+
+def check_C14(tier):
+    rep = core.Report('C14', tier)
+    gate = core.proof_gate(THEOREMS['C14'], tier)
+    ds = measure()
+    jobs = c14_jobs(tier, ds)
+    reals = core.pmap(hist.real_worker, jobs)
+    ops = {}
+    for j, r in zip(jobs, reals):
+        if 'harness_error' in r:
+            raise core.HarnessError(r['harness_error'])
+        f = r['steps'][j['fault_step']].get('fault', {}).get('fired')
+        if f is None:
+            raise core.HarnessError('injected fault did not fire: %s' % j['seed'])
+        ops[f['op']] = ops.get(f['op'], 0) + 1
+        rep.count('in_call:' + f['in_call'][0])
+        j['steps'][j['fault_step']][5].update(fault_plan(f))
+    specs = model.run_cases(jobs)
+    explore('C14', tier, rep, jobs, precomputed=list(zip(jobs, reals, specs)))
+    rep.coverage['faulted_operations'] = ops
+    return finish('C14', rep, gate)
+
+
 def check_TIE(tier): return run_hist_prop('TIE', tier, 99, 800, 40000)
 
 
-CHECKS = {'TIE': check_TIE, 'C09': check_C09, 'C17': check_C17, 'C01': check_C01, 'C02': check_C02, 'C03': check_C03, 'C04': check_C04, 'C05': check_C05,
+CHECKS = {'TIE': check_TIE, 'C14': check_C14, 'C09': check_C09, 'C17': check_C17, 'C01': check_C01, 'C02': check_C02, 'C03': check_C03, 'C04': check_C04, 'C05': check_C05,
           'C06': check_C06, 'C07': check_C07, 'C08': check_C08, 'C10': check_C10, 'C12': check_C12, 'C13': check_C13,
           'C15': check_C15, 'C16': check_C16, 'C18': check_C18}
 
